@@ -43,7 +43,7 @@ func main() {
 		tier := os.Args[3]
 		seed := envInt("VERIF_SEED", 1)
 		workers := int(envInt("VERIF_WORKERS", int64(runtime.NumCPU())))
-		os.Exit(run.Drive(ck, tier, seed, self, bin, root, workers, ""))
+		os.Exit(run.Drive(ck, tier, seed, self, bin, root, workers, filepath.Join(root, "harness", ".build", "vcheck-race")))
 	case "worker":
 		a := os.Args[2:]
 		ck := run.Registry[a[0]]
